@@ -56,7 +56,7 @@ fn file_read_stub(_f: &mut File, buf: &mut [u8]) -> io::Result<usize> {
     Ok(k)
 }
 
-fn file_read_buf_stub(_f: &mut File, mut cursor: BorrowedCursor<'_>) -> io::Result<()> {
+fn file_read_buf_stub(_f: &mut File, mut cursor: BorrowedCursor<'_, u8>) -> io::Result<()> {
     if unsafe { ERRS } && kani::any() {
         return Err(io_err());
     }
@@ -115,11 +115,10 @@ fn is_native_stub() -> bool {
     false
 }
 
-/// A file positioned at `pos`. Under Kani: a handle that is never used (all I/O goes to the model).
-/// Natively (replay): a real, empty, sparse temp file of length `pos + tail` positioned at `pos`.
-fn file_at(pos: u64, tail: u64, errs: bool, fuel: u32) -> File {
+/// A file handle. Under Kani: never used (all I/O goes to the model). Natively (replay): a real,
+/// zero-filled sparse temp file of length `pos + tail` positioned at `pos`.
+fn raw_file(pos: u64, tail: u64) -> File {
     if is_native() {
-        use std::io::Write;
         use std::sync::atomic::{AtomicU32, Ordering};
         static N: AtomicU32 = AtomicU32::new(0);
         let mut p = std::env::temp_dir();
@@ -140,13 +139,18 @@ fn file_at(pos: u64, tail: u64, errs: bool, fuel: u32) -> File {
         let _ = std::fs::remove_file(&p);
         f
     } else {
-        unsafe {
-            POS = pos;
-            FUEL = fuel;
-            ERRS = errs;
-            File::from_raw_fd(3)
-        }
+        unsafe { File::from_raw_fd(3) }
     }
+}
+
+/// The file under test: model state (Kani) / real file (native) positioned at `pos`.
+fn file_at(pos: u64, tail: u64, errs: bool, fuel: u32) -> File {
+    unsafe {
+        POS = pos;
+        FUEL = fuel;
+        ERRS = errs;
+    }
+    raw_file(pos, tail)
 }
 
 macro_rules! io_harness {
@@ -373,7 +377,7 @@ fn any_prim_entry() -> Option<Result<primary::Entry, primary::Error>> {
 
 fn prim_reader(fuel_is_shared: ()) -> primary::Reader {
     // the primary index behind the secondary reader: any state; it shares the file model
-    let br = BufReader::new(unsafe { File::from_raw_fd(4) });
+    let br = BufReader::new(raw_file(0, 0));
     let last_slot: Option<u32> = kani::any();
     kani::assume(match last_slot { Some(s) => s < u32::MAX - 4, None => true });
     primary::verif_hooks::from_parts(br, 1, last_slot, any_offset_slot(), any_offset_slot())
@@ -390,10 +394,7 @@ fn c43_q_secondary_backwards() {
     kani::assume(start < (1 << 32));
     kani::assume((current as u64) < start);
     let br = BufReader::new(file_at(start, 64, false, 0));
-    let pbr = BufReader::new(file_at(0, 0, false, 0));
-    if !is_native() {
-        unsafe { POS = start };
-    }
+    let pbr = BufReader::new(raw_file(0, 0));
     let index = primary::verif_hooks::from_parts(pbr, 1, None, None, None);
     let mut rd = secondary::verif_hooks::from_parts(br, index, Some(Ok(primary::Entry::Occupied(0, current))));
     let r = rd.next();
@@ -498,8 +499,8 @@ fn c43_q_chunk_next() {
     let fuel: u32 = kani::any();
     kani::assume(fuel <= 3);
     let br = BufReader::new(file_at(start, 8, true, fuel));
-    let pbr = BufReader::new(unsafe { File::from_raw_fd(4) });
-    let sbr = BufReader::new(unsafe { File::from_raw_fd(5) });
+    let pbr = BufReader::new(raw_file(0, 0));
+    let sbr = BufReader::new(raw_file(0, 0));
     let pidx = primary::verif_hooks::from_parts(pbr, 1, None, None, None);
     let sidx = secondary::verif_hooks::from_parts(sbr, pidx, None);
     let cur = any_sec_slot();
@@ -533,6 +534,20 @@ fn c43_v_twin() {
     let mut br = BufReader::new(file_at(kani::any(), 8, true, 3));
     let r = primary::verif_hooks::read_offset(&mut br);
     assert!(matches!(&r, Some(Ok(_))), "twin: must fail");
+    core::mem::forget(r);
+    core::mem::forget(br);
+}
+}
+
+io_harness! {
+#[kani::unwind(12)]
+fn probe_a() {
+    let start: u64 = kani::any();
+    let next_offset: u64 = kani::any();
+    kani::assume(next_offset < start);
+    unsafe { POS = start; FUEL = 2; ERRS = false; }
+    let mut br = BufReader::new(unsafe { File::from_raw_fd(3) });
+    let r = chunk::verif_hooks::read_middle_block(&mut br, next_offset);
     core::mem::forget(r);
     core::mem::forget(br);
 }
